@@ -240,8 +240,8 @@ def strPrim : Prim → String
   | .nil => ""                 -- `Nil.__str__` returns "" (pinned by the repo's tests; known finding)
   | .tru => "true"
   | .fals => "false"
-  | .empty => "empty"
-  | .blank => "blank"
+  | .empty => ""               -- `Empty.__str__` returns "": it is also the run-time string of the value
+  | .blank => ""               -- (`'abc' contains empty` uses `str(right)`), so it cannot print the keyword; known finding
   | .int i => toString i
   | .float t => t
   | .str v => quoteS v
